@@ -629,6 +629,20 @@ func init() {
 			return one(st, nv)
 		}
 	}
+	// an atomic load of a variable other goroutines update concurrently: whatever any of them stored last, i.e. an
+	// arbitrary value (in particular NOT necessarily what this goroutine's own preceding atomic.Add returned)
+	atomicLoad := func(w int) model {
+		return func(e *Exec, st *State, fr *Frame, fn *ssa.Function, args []Value, pos token.Pos) []Outcome {
+			p := args[0].(*PtrV)
+			e.nilCheck(st, fr, p, pos)
+			e.note("atomic loads return an arbitrary value (the variable is shared with other goroutines)")
+			return one(st, Fresh("atomic.load", BV(w)))
+		}
+	}
+	models["sync/atomic.LoadInt64"] = atomicLoad(64)
+	models["sync/atomic.LoadUint64"] = atomicLoad(64)
+	models["sync/atomic.LoadInt32"] = atomicLoad(32)
+	models["sync/atomic.LoadUint32"] = atomicLoad(32)
 	models["sync/atomic.AddInt64"] = atomicAdd(64)
 	models["sync/atomic.AddInt32"] = atomicAdd(32)
 	models["sync/atomic.AddUint64"] = atomicAdd(64)
